@@ -16,6 +16,7 @@
 
 static int SHIFT, SIZE, NMAX, ENC_FLOAT, OPTS, REAL, ONLY_FULL;
 static config_t *CFG, *CFG_REF;
+static int NUTTS = 1;
 static int BIGENDIAN, IN_REF; /* --endian big: the explored front ends read byte-swapped input (input_endian=big on this little-endian
                                  host); the one-call reference always reads the same signal in native order */
 static int16 *SIG;
@@ -75,6 +76,9 @@ typedef struct {
     int offered; /* end of the samples the caller has shown to the front end so far: a caller cannot
                     take samples back, so every later call starts at `consumed` and reaches at least
                     `offered`, and the stream can only end once everything offered was consumed */
+    int utt;     /* --utts 2: after the end of the first utterance fe_start begins a second one on the SAME front end, with
+                    the same signal and the same reference; the utterance number is part of the state, so the second one is
+                    explored in full whatever the abstraction below thinks of the state after fe_start */
 } obj_t;
 
 static void *
@@ -112,19 +116,24 @@ canon(void *ctx, void *v, mc_buf *b)
     (void)ctx;
     mc_buf_i(b, o->consumed);
     mc_buf_i(b, o->emitted);
+    mc_buf_i(b, o->utt);
     if (o->consumed < 0)
         return; /* ended */
     mc_buf_i(b, o->offered - o->consumed);
     mc_buf_i(b, fe->num_overflow_samps);
-    if (fe->num_overflow_samps > 0)
+    if (NUTTS > 1)
+        mc_buf_put(b, fe->overflow_samps, sizeof(float32) * fe->frame_size);
+    else if (fe->num_overflow_samps > 0)
         mc_buf_put(b, fe->overflow_samps, sizeof(float32) * (fe->num_overflow_samps > fe->frame_size ? fe->frame_size : fe->num_overflow_samps));
     MC_PUT(b, fe->pre_emphasis_prior);
-    if (o->emitted > 0)
+    if (o->emitted > 0 || NUTTS > 1)
         mc_buf_put(b, fe->spch, sizeof(*fe->spch) * fe->frame_size);
     if (fe->noise_stats) {
         noise_stats_t *ns = fe->noise_stats;
         mc_buf_i(b, ns->undefined);
-        if (!ns->undefined) {
+        /* with a second utterance on the same front end the tracker's arrays are part of the state even while it calls
+         * itself undefined: whether fe_start really makes them irrelevant is what is being asked */
+        if (!ns->undefined || NUTTS > 1) {
             mc_buf_put(b, ns->power, sizeof(powspec_t) * ns->num_filters);
             mc_buf_put(b, ns->noise, sizeof(powspec_t) * ns->num_filters);
             mc_buf_put(b, ns->floor, sizeof(powspec_t) * ns->num_filters);
@@ -234,6 +243,11 @@ apply(void *ctx, void *v, int op, int check, const char *hist)
         }
         o->emitted += k;
         o->consumed = -1;
+        if (NUTTS > 1 && o->utt + 1 < NUTTS) {
+            fe_start(o->fe);
+            o->utt++;
+            o->consumed = o->emitted = o->offered = 0;
+        }
         return 0;
     } else {
         int li = op / 3, lim = LIMS[op % 3], len = LENS[li], used, k, ok, i;
@@ -327,6 +341,10 @@ setup(void)
             SIG[i] = 32767;
         if (i % 13 == 5)
             SIG[i] = -32768;
+        /* quiet beginning, loud end: what a noise tracker or a masking peak remembers of the end of one utterance
+         * matters at the beginning of the next */
+        if (i < NMAX / 3)
+            SIG[i] = (int16)(SIG[i] / 256);
     }
     cand[nc++] = 1;
     cand[nc++] = 2;
@@ -438,13 +456,15 @@ main(int argc, char **argv)
         return 2;
     ENC_FLOAT = strcmp(mc_arg(argc, argv, "--enc", "int16"), "float") == 0;
     BIGENDIAN = strcmp(mc_arg(argc, argv, "--endian", "native"), "big") == 0;
+    NUTTS = atoi(mc_arg(argc, argv, "--utts", "1"));
     {
         const char *os = mc_arg(argc, argv, "--opts", "0");
         int all = strcmp(os, "all") == 0, o, first = 1;
         int nmax0 = atoi(mc_arg(argc, argv, "--nmax", "0"));
         long long tstates = 0, ttrans = 0;
         int fix = 1, maxd = 0, nexp = 0;
-        for (o = all ? 0 : atoi(os); o < (all ? 256 : atoi(os) + 1); o++) {
+        int olo = all ? 0 : atoi(os), ohi = all ? 255 : (strchr(os, '-') ? atoi(strchr(os, '-') + 1) : atoi(os));
+        for (o = olo; o <= ohi; o++) {
             if (((o >> 2) & 3) == 3 || ((o >> 5) & 3) == 3)
                 continue; /* not a distinct option set */
             if (mc_past_deadline()) {
